@@ -28,7 +28,7 @@ func TestMain(m *testing.M) { os.Exit(R.Main(m)) }
 
 // Case is one keystore history on one fixture.
 type Case struct {
-	Fixture string      `json:"fixture"` // format + back end / cache size: v1/cache=off|1|inf, v2/mem, v2/dir
+	Fixture string      `json:"fixture"` // format + back end / cache size: v1/cache=off|1|inf, v2/mem, v2/dir, v1/cmd .. v2/bin, v1/pubdir/cache=off|inf|cmd|bin
 	IDs     []string    `json:"ids"`     // client ids the history works on
 	Probe   gen.Hex     `json:"probe"`   // value protected with every newly generated key
 	Ops     []kshist.Op `json:"ops"`
@@ -43,11 +43,29 @@ const maxOps = 25
 // maxOpsBin bounds the histories that run one acra-keys process per write and per listing.
 const maxOpsBin = 12
 
+// The keystore configurations a history runs on. historyFixtures work through the keystore API,
+// commandFixtures through the acra-keys tool. Both contain, besides the configurations shared with the
+// other keystore properties, keystore v1 with a public key directory of its own (kshist.PubDirFixtureNames:
+// KeyDirectories(private, public) / --keys_dir_public), where the two halves of every key pair and of
+// every rotated version of it live under different roots.
+var (
+	historyFixtures = append(append([]string(nil), kshist.FixtureNames...), "v1/pubdir/cache=off", "v1/pubdir/cache=inf")
+	commandFixtures = append(append([]string(nil), kshist.CLIFixtureNames...), "v1/pubdir/cmd", "v1/pubdir/bin")
+	allFixtures     = append(append(append([]string(nil), kshist.FixtureNames...), kshist.CLIFixtureNames...), kshist.PubDirFixtureNames...)
+)
+
+func openFixture(name string) (kshist.Fixture, error) {
+	if kshist.IsPubDir(name) {
+		return kshist.OpenPubDir(name)
+	}
+	return kshist.Open(name)
+}
+
 func genCase(t *rapid.T, fixture string) Case {
 	c := Case{Fixture: fixture}
 	// every rapid.Check of a process starts from the same seed; consuming a fixture-specific number
 	// of values first gives each fixture its own histories
-	for i, f := range append(append([]string(nil), kshist.FixtureNames...), kshist.CLIFixtureNames...) {
+	for i, f := range allFixtures {
 		if f == fixture {
 			for j := 0; j < i; j++ {
 				rapid.Uint64().Draw(t, "salt")
@@ -70,7 +88,7 @@ func genCase(t *rapid.T, fixture string) Case {
 // reproduce that generation's probe MAC.
 func Check(c Case) (hx.Vs, *kshist.Result) {
 	var vs hx.Vs
-	fx, err := kshist.Open(c.Fixture)
+	fx, err := openFixture(c.Fixture)
 	if err != nil {
 		vs.Add("harness:open", "cannot open fixture %q: %v", c.Fixture, err)
 		return vs, nil
@@ -136,6 +154,7 @@ func Check(c Case) (hx.Vs, *kshist.Result) {
 			}
 		},
 	}
+	hooks.AfterStep = pairHalves(c.Fixture)
 	res := kshist.Run(fx, c.Ops, hooks)
 	for _, v := range res.Vs {
 		if strings.Contains(v.Msg, "harness: ") && res.Discard == "" {
@@ -171,7 +190,7 @@ func testName(fixture string) string { return "TestHistory/" + fixture }
 // counts are the histories per shard (quick, thorough). The directory back end syncs every write
 // to disk (about ten times the cost of the other fixtures) and shares all code above the back end
 // with the in-memory fixture, so it gets fewer histories and the in-memory one more.
-// Quick: 4 shards x 540 = 2160 histories; thorough: 16 x 6500.
+// Quick: 14 shards x 640 = 8960 histories; thorough: 16 x 7700.
 func counts(fixture string) (int, int) {
 	switch fixture {
 	case "v2/mem":
@@ -184,6 +203,12 @@ func counts(fixture string) (int, int) {
 		return 25, 300
 	case "v1/bin", "v2/bin":
 		return 3, 40
+	case "v1/pubdir/cache=off", "v1/pubdir/cache=inf":
+		return 50, 600
+	case "v1/pubdir/cmd":
+		return 30, 400
+	case "v1/pubdir/bin":
+		return 2, 30
 	}
 	return 100, 1200
 }
@@ -293,22 +318,23 @@ type failing struct {
 var best = map[string]*failing{}
 
 // TestHistory runs generated histories on every fixture (one rapid property per fixture, so that a
-// finding in one format does not hide the others).
-func TestHistory(t *testing.T) { runFixtures(t, kshist.FixtureNames) }
+// finding in one format does not hide the others); v1 also with a separate public key directory.
+func TestHistory(t *testing.T) { runFixtures(t, historyFixtures) }
 
 // TestCommandHistory runs the same histories with the writes and listings going through the acra-keys tool:
 // `generate`, `destroy --index N <key id>` and `list --rotated-keys --json` as the subcommands parse and
 // execute them in-process (v1/cmd, v2/cmd) and as processes of the real binary built from the tree under
-// test (v1/bin, v2/bin). The index an operator reads in the listing printed by the tool must destroy exactly
+// test (v1/bin, v2/bin), also with `--keys_dir_public` naming a directory of its own for the public keys
+// (v1/pubdir/cmd, v1/pubdir/bin). The index an operator reads in the listing printed by the tool must destroy exactly
 // that generation of exactly that key.
-func TestCommandHistory(t *testing.T) { runFixtures(t, kshist.CLIFixtureNames) }
+func TestCommandHistory(t *testing.T) { runFixtures(t, commandFixtures) }
 
 func runFixtures(t *testing.T, fixtures []string) {
 	for _, fixture := range fixtures {
 		fixture := fixture
 		t.Run(strings.NewReplacer("/", "-", "=", "-").Replace(fixture), func(t *testing.T) {
 			name := testName(fixture)
-			R.Rule(name, "operation lists (1-25) over {generate/rotate, read current, read all, list, list rotated, destroy current, destroy rotated by listed index, reset, reopen} x 6 key kinds x 1-3 client ids, weighted towards one focus key; model = generations with destroyed flags; exact comparison through a cache-less fresh handle after every write and through the handle under test when it has no cache or no write happened since reset/reopen, cache clause (nothing foreign, never loses a surviving key offered earlier) otherwise; probes protected with every new key must stay readable through the all-keys read; non-trivial = a rotation followed by a read-all of that key, or a destruction followed by any read operation")
+			R.Rule(name, "operation lists (1-25) over {generate/rotate, read current, read all, list, list rotated, destroy current, destroy rotated by listed index, reset, reopen} x 6 key kinds x 1-3 client ids, weighted towards one focus key; model = generations with destroyed flags; exact comparison through a cache-less fresh handle after every write and through the handle under test when it has no cache or no write happened since reset/reopen, cache clause (nothing foreign, never loses a surviving key offered earlier) otherwise; probes protected with every new key must stay readable through the all-keys read; key pairs are judged by both halves (the public key handed out for encryption is never the one of a destroyed generation; a pair without a current key is listed with both halves or neither); fixtures v1/pubdir/* are keystore v1 with a public key directory of its own (KeyDirectories / --keys_dir_public); non-trivial = a rotation followed by a read-all of that key, or a destruction followed by any read operation")
 			q, th := counts(fixture)
 			hx.Checks(q, th)
 			flag.Set("rapid.shrinktime", "1s") // the operation list is minimised by minimize(); rapid only needs to try shorter draws
@@ -341,7 +367,7 @@ func runFixtures(t *testing.T, fixtures []string) {
 
 func TestReplay(t *testing.T) {
 	h := map[string]hx.ReplayHandler{"TestHistory": replayCase}
-	for _, f := range append(append([]string(nil), kshist.FixtureNames...), kshist.CLIFixtureNames...) {
+	for _, f := range allFixtures {
 		h[testName(f)] = replayCase
 	}
 	R.Replay(t, h)
